@@ -1,8 +1,10 @@
 """C09: what goes on the wire is exactly the documented protocol (DESIGN.md 7/C09)."""
 from vlib import run_pair
+from xl import xl_pair, xl_search
 
 PID = "C09"
 MODEL_VOS = ["model/Wire.vo"]
+USES_TRANSLATED = True     # props/C09.v has a theorem over gen/Translated.v: a translator failure is a problem of this check
 ASSUMPTIONS = [
     "whole endpoints: driver e2e (-prop C09) runs real client and server Muxes over simnet (both transports, traffic patterns with padding / low-entropy modes x rotations / TCP fragmentation, loss on UDP) and requires every emitted TCP stream and UDP datagram to decode with refcodec; it also lets refcodec act as a third-party client (any of the three key slots, paddings 0..255, any valid mask/rotation/mode, piggybacked open payload 0..1024, maximum payloads, arbitrary TCP chunking) against a real server, whose application must receive the exact bytes and whose reply refcodec must decode (oracle only)",
     "SHA-256, PBKDF2 and XChaCha20-Poly1305 are uninterpreted in the Coq model (Section variables); conformance of key derivation, user hint, sealed boxes and nonce use is established by vectors and by interop runs between mieru's real read/writeOneSegment and the document-only codec harness/refcodec, not by proof",
@@ -14,11 +16,14 @@ ASSUMPTIONS = [
 
 def run(ctx):
     return [run_pair(ctx, "c09", PID, MODEL_VOS),
-            run_pair(ctx, "e2e", PID, None, faketime=True, extra_args=["-prop", "C09"], subdir="e2e")]
+            run_pair(ctx, "e2e", PID, None, faketime=True, extra_args=["-prop", "C09"], subdir="e2e"),
+            # xl: the real protocol type predicates vs their translation (validates the translator), and the translation vs
+            # the predicates of model/Wire.v, on every byte
+            xl_pair(ctx, "c09")]
 
 
 def search(ctx):
-    return [run_pair(ctx, "c09", PID, None, tier="thorough", seed=ctx.seed + 1000 + i, subdir="search%d" % i) for i in range(2)]
+    return xl_search(ctx, "c09") + [run_pair(ctx, "c09", PID, None, tier="thorough", seed=ctx.seed + 1000 + i, subdir="search%d" % i) for i in range(2)]
 
 MANIFEST = dict(
     text="Theorems over the Wire model (the three 32-byte metadata layouts with one offset lemma per row of the document's tables, marshal/unmarshal round trip and injectivity on valid metadata, 32-byte length, protocol-type partition of 0..255, the 24-byte big-endian nonce increment as +1 mod 2^192 and its iteration, documented constants) proved for all field values; constants regenerated from /repo; the model is compared with pkg/protocol Marshal/Unmarshal/predicates and pkg/cipher increaseNonce on boundary corpora, every protocol byte and random cases; key derivation, user hint, complete TCP streams and UDP datagrams, the low-entropy codec and the UDP-associate frame are compared in both directions with an independent codec written from docs/protocol.md.",
